@@ -1238,9 +1238,9 @@ class ASTBuilder:
 
 model.System.defaultBuilder = ASTBuilder
 
-def findModuleLevelAssign(mod_ast: ast.Module) -> Iterator[Tuple[str, ast.Assign]]:
+def findModuleLevelAssign(mod_ast: ast.Module) -> Iterator[Tuple[str, Union[ast.Assign, ast.AnnAssign]]]:
     """
-    Find module level Assign. 
+    Find module level Assign (annotated or not).
     Yields tuples containing the assigment name and the Assign node.
     """
     for node in mod_ast.body:
@@ -1248,8 +1248,12 @@ def findModuleLevelAssign(mod_ast: ast.Module) -> Iterator[Tuple[str, ast.Assign
             len(node.targets) == 1 and \
             isinstance(node.targets[0], ast.Name):
                 yield (node.targets[0].id, node)
+        elif isinstance(node, ast.AnnAssign) and \
+            node.value is not None and \
+            isinstance(node.target, ast.Name):
+                yield (node.target.id, node)
 
-def parseAll(node: ast.Assign, mod: model.Module) -> None:
+def parseAll(node: Union[ast.Assign, ast.AnnAssign], mod: model.Module) -> None:
     """Find and attempt to parse into a list of names the 
     C{__all__} variable of a module's AST and set L{Module.all} accordingly."""
 
@@ -1282,7 +1286,7 @@ def parseAll(node: ast.Assign, mod: model.Module) -> None:
             section='all', lineno_offset=node.lineno)
     mod.all = names
 
-def parseDocformat(node: ast.Assign, mod: model.Module) -> None:
+def parseDocformat(node: Union[ast.Assign, ast.AnnAssign], mod: model.Module) -> None:
     """
     Find C{__docformat__} variable of this 
     module's AST and set L{Module.docformat} accordingly.
@@ -1324,7 +1328,7 @@ def parseDocformat(node: ast.Assign, mod: model.Module) -> None:
 
     mod.docformat = value
 
-MODULE_VARIABLES_META_PARSERS: Mapping[str, Callable[[ast.Assign, model.Module], None]] = {
+MODULE_VARIABLES_META_PARSERS: Mapping[str, Callable[[Union[ast.Assign, ast.AnnAssign], model.Module], None]] = {
     '__all__': parseAll,
     '__docformat__': parseDocformat
 }
